@@ -42,6 +42,10 @@ def _observe(job):
         # rows with positive coordinates so small that powers of them overflow (1e-300, the smallest denormal) next to ordinary rows
         tiny_in = np.vstack([np.array([[1e-300, 0.4], [0.6, 5e-324]]), sub, np.array([[1e-200, 1e-250], [3e-39, 0.9]])])
         tiny = np.asarray(m.cumulative_distribution(tiny_in.copy()), dtype=float)[2:-2]
+        # the same array evaluated twice (rows on the edges of the square among them): the second answer is the first
+        twice_in = np.vstack([np.array([[0.0, 0.3], [0.6, 0.0], [0.0, 0.0]]), sub])
+        m.cumulative_distribution(twice_in)
+        twice = np.asarray(m.cumulative_distribution(twice_in), dtype=float)[3:]
         # a work buffer: the same array object evaluated, overwritten in place and evaluated again
         idx2 = rs.choice(n * n, size=len(idx), replace=False)
         buf = sub.copy()
@@ -57,7 +61,7 @@ def _observe(job):
         wide[:, 1], wide[:, 3] = sub[:, 0], sub[:, 1]
         strided = np.asarray(m.cumulative_distribution(wide[:, 1::2]), dtype=float)              # a strided view
         fortran = np.asarray(m.cumulative_distribution(np.asfortranarray(sub.copy())), dtype=float)   # column-major memory
-    for arr in (rev, mixed, zf, tiny, strided, fortran):
+    for arr in (rev, mixed, zf, tiny, twice, strided, fortran):
         f = O.fx(arr)
         for j, i in enumerate(idx):
             rowwise.append({'a': int(big[i]), 'b': int(f[j])})
